@@ -34,6 +34,7 @@ def run(ctx, repo):
     ctx.call(R6B.r_doc_end_lookahead, repo)
     ctx.call(R6B.r_need_more_tokens_pure, repo)
     XL.reader_positions(ctx, repo)
+    ctx.call(R6B.r_refill_exact, repo)
 
 
 if __name__ == '__main__':
